@@ -1,3 +1,6 @@
 import Glas.Model.Text
 import Glas.Model.Proto
 import Glas.Model.TextCmd
+import Glas.Model.Dsl
+import Glas.Model.Tree
+import Glas.Model.Lexer
